@@ -115,6 +115,10 @@ static void* waiter_main(void* arg) {
         if (r.chance(1, 4)) thread_yield();
     }
     g_waiters_done.fetch_add(1, std::memory_order_acq_rel);
+    // Stay alive until the notifiers have stopped: a notifier reads the queue head without a lock and then locks
+    // that thread (waitq::resume_one -> indirect_lock); if the head was meanwhile woken by another notifier, finished
+    // and was joined, its thread object - which lives on its own stack - is gone (see the exit-after-wake probe).
+    while (g_aux_running.load(std::memory_order_acquire) > 0) thread_usleep(300);
     return nullptr;
 }
 
@@ -216,8 +220,81 @@ static bool on_stuck(std::string& key, std::string& what, std::string& wit) {
     return proved;
 }
 
+
+// ---------------------------------------------------------------- probe: waiters that exit right after being woken
+// Two vCPUs call notify_one() without any common lock while a third keeps creating short-lived waiters that return
+// (their stacks, which contain their thread objects, are freed) as soon as they are woken. A notifier reads the
+// queue head unlocked and then locks that thread (waitq::resume_one -> indirect_lock): if the other notifier woke
+// it in between and it has exited, that lock is taken on freed memory. Only run under ASan (stable report key).
+namespace exitprobe {
+static condition_variable* cv = nullptr;
+static std::atomic<int> inflight{0};
+static std::atomic<bool> stop{false};
+static vh::NamedCounter c_waiters("exit_probe_waiters"), c_notifies("exit_probe_notifies");
+static void* waiter(void*) {
+    cv->wait_no_lock();
+    inflight.fetch_sub(1, std::memory_order_acq_rel);
+    c_waiters.add();
+    vh::event(); vh::progress();
+    return nullptr;             // not joinable: the stack is released as soon as it is done
+}
+static std::atomic<bool> active{false};
+static int run(vh::Rng& r) {
+    uint64_t total = vh::args().thorough() ? 60000 : 15000;
+    active.store(true);
+    vh::config("section", "exit-after-wake-probe"); vh::config("vcpus", 3);
+    using namespace photon::verif;
+    auto& S = vh::st();
+    S.stall_den[P_WAITQ_RESUME] = 4; S.stall_max_ns[P_WAITQ_RESUME] = 100000; S.stall_sleep_den = 16;
+    g_hooks.point = &vh::stall_handler;
+    cv = new condition_variable;
+    vh::start_supervisor([](std::string& k, std::string& w, std::string&) { k = "cvar-exit-probe"; w = "probe made no progress"; return false; });
+    vh::VCpus vc;
+    vc.run(3, nullptr, [&](int v) {
+        if (v == 0) {
+            for (uint64_t i = 0; i < total; ++i) {
+                while (inflight.load(std::memory_order_acquire) >= 4) thread_yield();
+                inflight.fetch_add(1, std::memory_order_acq_rel);
+                thread_create(waiter, nullptr, 64 * 1024);
+                if ((i & 3) == 0) thread_yield();
+            }
+            while (inflight.load(std::memory_order_acquire) > 0) thread_usleep(100);
+            stop.store(true, std::memory_order_release);
+        } else {
+            while (!stop.load(std::memory_order_acquire)) {
+                if (cv->notify_one()) c_notifies.add();
+                if (r.chance(1, 64)) thread_yield();
+            }
+        }
+    });
+    vh::set_sig("exit-probe", c_waiters.get() > 0);
+    vh::sample(vh::JObj().kv("section", "exit-after-wake-probe").kv("waiters", c_waiters.get()).kv("notifies", c_notifies.get()).str());
+    return vh::finish();
+}
+}  // namespace exitprobe
+
+// In the probe the only shared objects are the condition variable and the waiters; a use-after-free report there is
+// the notifier touching a waiter that has exited. The frames of the report depend on inlining, so the harness names
+// the violation itself instead of leaving the key to the report parser.
+extern "C" const char* __asan_get_report_description() __attribute__((weak));
+extern "C" void __asan_on_error() {
+    if (!exitprobe::active.load()) return;
+    const char* d = __asan_get_report_description ? __asan_get_report_description() : nullptr;
+    if (!d || strcmp(d, "heap-use-after-free") != 0) return;      // anything else: full report, parsed by the driver
+    vh::violation("notify/touches-exited-waiter",
+                  "notify_one() without a common lock accessed the thread object of a waiter that another notifier had "
+                  "already woken and that has exited (ASan heap-use-after-free in waitq::resume_one/indirect_lock)",
+                  vh::JObj().kv("waiters_so_far", exitprobe::c_waiters.get()).kv("notifies_so_far", exitprobe::c_notifies.get()).str());
+    vh::write_summary();
+    _exit(10);
+}
+
 int main(int argc, char** argv) {
     vh::init(argc, argv);
+    if (vh::args().has("section") ? vh::args().gets("section", "") == "exitprobe" : (vh::is_asan() && vh::args().exec % 8 == 7)) {
+        vh::Rng r0(vh::args().xseed());
+        return exitprobe::run(r0);
+    }
     vh::Rng r(vh::args().xseed());
     g_spin = vh::args().has("lock") ? vh::args().gets("lock", "") == "spin" : r.chance(1, 2);
     int nv = vh::args().geti("vcpus", r.pick({1, 2, 2, 3, 4}));
